@@ -52,6 +52,11 @@ PROGRAMS = [
         "section ; ltrehash 6 ; ltinsert 9 9 ; end ; find 9",
         "rehash 3 ; find 1",
         "reserve 100 ; find 2"]),
+    # explicit requests queued in lock_all behind an automatic doubling (and behind each other)
+    ("rehash-vs-doubling", 0, 2, "0 0 1 1", [
+        "rehash 5 ; find 0",
+        "insert 2 2 ; insert 3 3 ; insert 4 4 ; insert 5 5",
+        "reserve 200 ; find 1"]),
     ("section-stream", 0, 16, "1 1 2 2 3 3", [
         "section ; ltinsert 4 4 ; ltstream ; ltfind 4 ; end",
         "find 1 ; find 2 ; insert 5 5",
@@ -139,14 +144,33 @@ def run_program(exe, p, runs, timeout=240):
 
 
 def lean_accept(trace_file):
-    """replays the protocol traces through the Lean acceptor; returns (n_traces, rejects[list of str])"""
+    """replays the protocol traces through the Lean acceptor and the sampled histories (accepted by the harness's own search)
+    through the verified linearizability checker; returns (n_traces, rejects[list of str], n_histories, lin_rejects)"""
     if not os.path.exists(trace_file) or os.path.getsize(trace_file) == 0:
-        return 0, []
+        return 0, [], 0, []
     with open(trace_file) as f:
-        rc, out, dt = C.sh([C.DRIVER], input=f.read(), timeout=1800)
+        text = f.read()
+    rc, out, dt = C.sh([C.DRIVER], input=text, timeout=1800)
     lines = out.splitlines()
     rej = [l for l in lines if l.startswith("REJECT") or l.startswith("bad")]
-    return len(lines), rej
+    hist = [l for l in text.splitlines() if l.startswith("lin ")]
+    ans = [l for l in lines if l.startswith("lin ")]
+    lrej = []
+    if len(ans) != len(hist):
+        lrej.append("driver answered %d of %d history requests" % (len(ans), len(hist)))
+    for h, a in zip(hist, ans):
+        if not (a.startswith("lin ok") or a.startswith("lin skip")):
+            lrej.append("%s <- %s" % (a, h[:600]))
+    return len(lines) - len(ans), rej, len(ans), lrej
+
+
+def lean_lin(history_request):
+    """verdict of the verified checker on one history: 'ok', 'NOTLIN', 'skip' or 'bad ...'"""
+    rc, out, dt = C.sh([C.DRIVER], input=history_request + "\n", timeout=600)
+    for l in out.splitlines():
+        if l.startswith("lin "):
+            return l[4:]
+    return "bad no answer"
 
 
 def explore(tier, seed, programs=None, with_traces=True):
@@ -185,15 +209,32 @@ def explore(tier, seed, programs=None, with_traces=True):
     def work(j):
         c, p, runs, tf = j
         rc, res, tail, dt = run_program(bins[c][1], p, runs)
-        ntr, rej = lean_accept(tf) if with_traces else (0, [])
+        ntr, rej, nh, lrej = lean_accept(tf) if with_traces else (0, [], 0, [])
         try:
             os.remove(tf)
         except OSError:
             pass
-        return c, p, runs, rc, res, tail, ntr, rej
+        # a history the harness's own search calls non-linearizable is reported only if the verified checker agrees
+        for r in res:
+            if r.get("lin") and str(r.get("why", "")).startswith("history is not linearizable"):
+                v = lean_lin(r["lin"])
+                r["lean_verdict"] = v
+                if v.startswith("ok"):
+                    r["disagreement"] = "the C++ search rejects a history that the verified checker linearizes: " + v
+        return c, p, runs, rc, res, tail, ntr, rej, nh, lrej
 
     with cf.ThreadPoolExecutor(max_workers=14) as ex:
-        for c, p, runs, rc, res, tail, ntr, rej in ex.map(work, jobs):
+        for c, p, runs, rc, res, tail, ntr, rej, nh, lrej in ex.map(work, jobs):
+            out["histories_checked_in_lean"] = out.get("histories_checked_in_lean", 0) + nh
+            for x in lrej[:2]:
+                out["failures"].append({"program": p[0], "config": "S=%d M=%d" % c, "threads": p[4], "prefill": p[3], "hash": p[1], "init_n": p[2],
+                                        "run": "", "first_seed": None, "schedule": "", "history": x,
+                                        "why": "history is not linearizable according to the verified checker Cuckoo.Lin.checkFast "
+                                               "(the harness's own search had accepted it)", "bad_of_runs": "?"})
+            for r in res:
+                if r.get("disagreement"):
+                    out.setdefault("oracle_disagreements", []).append({"program": p[0], "config": "S=%d M=%d" % c, "what": r["disagreement"], "history": r.get("history", "")})
+                    r["bad"] = 0        # not a finding about the code: the two oracles disagree, the verified one wins
             key = "%s S=%d M=%d" % (p[0], c[0], c[1])
             ne = sum(r.get("runs", 0) for r in res)
             out["executions"] += ne
